@@ -72,12 +72,24 @@ def fam_scope(E, causes, nested=True, volatile=True, late=True, indiv=False, rea
             log('B', 'inner-left', bool(S['G'].done) if 'G' in S else None)
         log('B', 'end')
 
+    async def cleanup_spawn():
+        log('X', 'ran')
+        await (time + 1)
+        log('X', 'ran-on')
+
     async def child_v():
         log('V', 'start')
         try:
             await eternity
         finally:
             log('V', 'closed')
+            # clean-up code that tries to spawn into the scope that is closing it
+            payload = cleanup_spawn()
+            try:
+                S['scope'].do(payload)
+                log('V', 'cleanup-do-accepted')
+            except ScopeClosed:
+                log('V', 'cleanup-do-refused', payload.cr_frame is None)
 
     async def orphan():
         log('O', 'ran')
@@ -180,7 +192,7 @@ def fam_scope(E, causes, nested=True, volatile=True, late=True, indiv=False, rea
         return
     pos_left = log.pos(left)
     t_left = left[2]
-    members = ('A', 'B', 'V', 'L', 'G')
+    members = ('A', 'B', 'V', 'L', 'G', 'X')
     # 1. nothing of the scope's tasks or their descendants runs after the block was left
     for ev in log.events[pos_left + 1:]:
         E.prove(ev[0] not in members, 'no-child-code-after-exit',
@@ -193,6 +205,9 @@ def fam_scope(E, causes, nested=True, volatile=True, late=True, indiv=False, rea
     if refused is not None:
         E.prove(refused[3] is True, 'late-payload-closed')
     E.prove(not log.has('O', 'ran'), 'late-payload-never-runs')
+    if log.has('V', 'closed'):
+        E.prove(log.has('V', 'cleanup-do-refused') and not log.has('X', 'ran'),
+                'spawn-from-cleanup-of-closed-child-refused')
     # 4. the trigger of the exit, as logged by the program
     a_cancelled = log.first('own', 'cancel-A')
     a_end, l_end, g_end = log.first('A', 'end'), log.first('L', 'end'), log.first('G', 'end')
